@@ -728,45 +728,50 @@ def _neg_key(key):
     return ('<=' if op == '<' else '<', npk, True)
 
 
-_CVC5 = None
+_CVC5_SCRIPT = r"""
+import sys, cvc5
+text = sys.stdin.read()
+tm = cvc5.TermManager() if hasattr(cvc5, 'TermManager') else None
+slv = cvc5.Solver(tm) if tm is not None else cvc5.Solver()
+slv.setOption('tlimit-per', sys.argv[1])
+slv.setLogic('QF_NRA')
+parser = cvc5.InputParser(slv)
+parser.setStringInput(cvc5.InputLanguage.SMT_LIB_2_6, text, 'q')
+sm = parser.getSymbolManager()
+res = 'unknown'
+while True:
+    cmd = parser.nextCommand()
+    if cmd.isNull():
+        break
+    o = str(cmd.invoke(slv, sm)).strip()
+    if '(error' in o:
+        res = 'unknown'
+        break
+    if o in ('sat', 'unsat', 'unknown'):
+        res = o
+print('RESULT', res)
+"""
 
 
 def _cvc5_check(assertions, timeout_ms):
-    """last resort: hand the query to cvc5 through SMT-LIB2 text"""
-    global _CVC5
+    """last resort: hand the query to cvc5 (SMT-LIB2 text) in a child process with a hard wall-clock limit.
+    Only 'unsat' / 'sat' verdicts are used; anything else (error, timeout, crash) is 'unknown'."""
+    import subprocess, sys
     try:
-        if _CVC5 is None:
-            import cvc5 as _c
-            _CVC5 = _c
-        cv = _CVC5
         s = z3.Solver()
         for a in assertions:
             s.add(a)
-        text = s.to_smt2()
-        if 'to_int' in text or 'Int' in text.split('(check-sat)')[0].replace('to_int', ''):
-            pass
-        tm = cv.TermManager() if hasattr(cv, 'TermManager') else None
-        slv = cv.Solver(tm) if tm is not None else cv.Solver()
-        slv.setOption('tlimit-per', str(int(timeout_ms)))
-        slv.setLogic('QF_NRA')
-        parser = cv.InputParser(slv)
-        parser.setStringInput(cv.InputLanguage.SMT_LIB_2_6, text.replace('(set-info :status unknown)', ''), 'q')
-        sm = parser.getSymbolManager()
-        res = None
-        while True:
-            cmd = parser.nextCommand()
-            if cmd.isNull():
-                break
-            out = cmd.invoke(slv, sm)
-            o = str(out).strip()
-            if o in ('sat', 'unsat', 'unknown'):
-                res = o
-            if '(error' in o:
-                return 'unknown'
-        return res or 'unknown'
-    except BaseException as e:  # any cvc5 problem => inconclusive, never success
-        if isinstance(e, (KeyboardInterrupt,)):
-            raise
+        text = s.to_smt2().replace('(set-info :status unknown)', '')
+        if 'to_int' in text or 'BitVec' in text or 'FloatingPoint' in text:
+            return 'unknown'
+        p = subprocess.run([sys.executable, '-c', _CVC5_SCRIPT, str(int(timeout_ms))], input=text, capture_output=True, text=True,
+                           timeout=timeout_ms / 1000.0 + 5)
+        for line in p.stdout.splitlines():
+            if line.startswith('RESULT '):
+                r = line.split()[1]
+                return r if r in ('sat', 'unsat') else 'unknown'
+        return 'unknown'
+    except Exception:
         return 'unknown'
 
 
